@@ -11,12 +11,14 @@ vars == <<l, bad>>
 B(x) == IF x THEN 1 ELSE 0
 InstanceLocs == {"rsenc.cache", "oned.scratch"}
 PkgLocs == {"pkg.gf", "pkg.gridSampler"}
+\* hooks that only REPORT values of a call (a local rectangle, a row's pairs) to the trace checks X01 / X06: no shared state behind them
+ObsLocs == {"wrd.rect", "rss14.row", "rss14.reset"}
 RoundCheck(e) ==
   LET O == {e.own[i] : i \in 1..Len(e.own)}
       inst == {o \in O : o[2] \in InstanceLocs}
       ownOK == \A a \in inst, b \in inst : (a[2] = b[2] /\ a[3] = b[3]) => a[1] = b[1]
       pkgOK == \A o \in O : o[2] \in PkgLocs => o[5] = 0
-      knownOK == \A o \in O : o[2] \in InstanceLocs \cup PkgLocs
+      knownOK == \A o \in O : o[2] \in InstanceLocs \cup PkgLocs \cup ObsLocs
       detOK == /\ Len(e.res) = e.rounds * e.njobs + e.k * e.nfirst      \* in the first round every goroutine also runs the `first` jobs
                /\ \A i \in 1..Len(e.res) : LET r == e.res[i] IN Len(r) = 10 /\ <<r[3], r[4], r[5], r[6]>> = <<r[7], r[8], r[9], r[10]>>
       \* the hooks must have seen the work: every concurrent goroutine that ran a QR / Data Matrix job used an encoder of its own
